@@ -87,6 +87,10 @@ pub fn main(args: &[String]) {
     if std::env::var("VERIF_PANIC_MSG").is_err() {
         std::panic::set_hook(Box::new(|_| {}));
     }
+    // deterministic background behaviour: deletions are captured (run by `reclaim`), the marker
+    // persister only writes at `persist`
+    walrus_rust::wal::verif_hooks::capture_deletions(true);
+    walrus_rust::wal::verif_hooks::hold_marker_persister(true);
     let mut wal: Option<Walrus> = None;
     let mut idx = start;
     let mut code = 0;
@@ -97,7 +101,11 @@ pub fn main(args: &[String]) {
         if t.is_empty() {
             continue;
         }
-        if t[0] == "restart" {
+        if t[0] == "restart" || t[0] == "kill" {
+            if t[0] == "restart" {
+                // clean shutdown: drop the instance, then the process ends
+                wal = None;
+            }
             writeln!(out, "ok").unwrap();
             code = 77;
             break;
@@ -126,6 +134,34 @@ pub fn main(args: &[String]) {
                 "close" => {
                     wal = None;
                     "ok".into()
+                }
+                "persist" => {
+                    walrus_rust::wal::verif_hooks::hold_marker_persister(false);
+                    std::thread::sleep(std::time::Duration::from_millis(40));
+                    walrus_rust::wal::verif_hooks::hold_marker_persister(true);
+                    "ok".into()
+                }
+                "reclaim" => {
+                    let mut names: Vec<u64> = walrus_rust::wal::verif_hooks::run_reclaimer()
+                        .iter()
+                        .filter_map(|p| std::path::Path::new(p).file_name().and_then(|n| n.to_str()).and_then(|n| n.parse().ok()))
+                        .collect();
+                    names.sort();
+                    format!("[{}]", names.iter().map(|n| n.to_string()).collect::<Vec<_>>().join(","))
+                }
+                "ls" => {
+                    let mut names: Vec<u64> = std::fs::read_dir(&datadir)
+                        .map(|rd| rd.flatten().filter_map(|e| e.file_name().to_str().and_then(|n| n.parse().ok())).collect())
+                        .unwrap_or_default();
+                    names.sort();
+                    format!("[{}]", names.iter().map(|n| n.to_string()).collect::<Vec<_>>().join(","))
+                }
+                "trk" => {
+                    let p = datadir.join(t[1]);
+                    match walrus_rust::wal::verif_hooks::file_state(&p.to_string_lossy()) {
+                        Some((l, c, tot, f)) => format!("{},{},{},{}", l, c, tot, f as u8),
+                        None => "none".into(),
+                    }
                 }
                 _ => {
                     let Some(w) = wal.as_ref() else { return "err:closed".into() };
